@@ -1,4 +1,6 @@
-// C31 (schedule part): the deduplicate filter's concurrent pipeline terminates and gives the same result on every schedule.
+// C31 (schedule part): the deduplicate filter's concurrent pipeline terminates and gives the same result on every schedule,
+// on a fresh filter and on a filter instance that is reused for consecutive Filter calls (as every component does: one
+// filter, one call per sync).
 package c31s
 
 import (
@@ -23,11 +25,33 @@ import (
 
 type Params struct {
 	Concurrency int `json:"concurrency"`
-	Groups      int `json:"groups"`    // symmetric groups
-	DupsPer     int `json:"dups_per"`  // covered blocks per group
+	Groups      int `json:"groups"`   // isomorphic groups (the order in which Go's map hands them to the workers is not owned by the scheduler)
+	DupsPer     int `json:"dups_per"` // covered blocks per group
+	// Layout "" : the groups' sources are disjoint. Layout "cross": the groups differ by resolution only and every
+	// group has a kept block whose sources are contained in the covering block of every OTHER group (as a raw
+	// block's sources are contained in the downsampled block made from its compaction) - any state shared between
+	// the workers of different groups then changes the result.
+	Layout string `json:"layout,omitempty"`
+	// Calls: consecutive Filter calls on ONE filter instance, each on a fresh listing of the same blocks (0 = 1).
+	Calls int `json:"calls,omitempty"`
+	// WarmDefault: all calls but the last run as executions of their own on the scheduler's default schedule (no
+	// deviation); only the last call's interleavings are enumerated (the space of a single call, on a used filter).
+	WarmDefault bool `json:"warm_default,omitempty"`
 }
 
 func (p Params) name() string { b, _ := json.Marshal(p); return string(b) }
+
+func (p Params) calls() int {
+	if p.Calls < 1 {
+		return 1
+	}
+	return p.Calls
+}
+
+// defaultSchedule always takes alternative 0 (keep running the current thread, else the lowest thread id).
+type defaultSchedule struct{}
+
+func (defaultSchedule) Choose(int, []vsync.Alt, func(vsync.Alt) string) int { return 0 }
 
 type gv struct{ g prometheus.Gauge }
 
@@ -35,81 +59,230 @@ func (g gv) WithLabelValues(...string) prometheus.Gauge { return g.g }
 
 func id(n uint64) ulid.ULID { return ulid.MustNew(n, nil) }
 
-func mk(n uint64, group int, sources ...uint64) *metadata.Meta {
+// blk is the plain description of one block of the scenario.
+type blk struct {
+	n       uint64
+	group   int
+	sources []uint64
+}
+
+func (b blk) covers(o blk) bool {
+	for _, s := range o.sources {
+		found := false
+		for _, t := range b.sources {
+			found = found || s == t
+		}
+		if !found {
+			return false
+		}
+	}
+	return true
+}
+
+var crossRes = []int64{0, 300000, 3600000}
+
+func (b blk) meta(p Params) *metadata.Meta {
 	m := &metadata.Meta{}
 	m.Version = 1
-	m.ULID = id(n)
-	for _, s := range sources {
+	m.ULID = id(b.n)
+	for _, s := range b.sources {
 		m.Compaction.Sources = append(m.Compaction.Sources, id(s))
 	}
-	m.BlockMeta = tsdb.BlockMeta{ULID: id(n), Version: 1, Compaction: tsdb.BlockMetaCompaction{Sources: m.Compaction.Sources}}
-	m.Thanos.Labels = map[string]string{"g": fmt.Sprint(group)}
+	m.BlockMeta = tsdb.BlockMeta{ULID: id(b.n), Version: 1, Compaction: tsdb.BlockMetaCompaction{Sources: m.Compaction.Sources}}
+	if p.Layout == "cross" {
+		m.Thanos.Labels = map[string]string{"g": "0"}
+		m.Thanos.Downsample.Resolution = crossRes[b.group]
+	} else {
+		m.Thanos.Labels = map[string]string{"g": fmt.Sprint(b.group)}
+	}
 	return m
 }
 
+// layout lists the blocks. Every group has the same shape (same number of blocks, of comparisons and of
+// duplicates), so that the synchronisation trace does not depend on the order in which the groups are handed out.
+func layout(p Params) []blk {
+	var out []blk
+	for g := 0; g < p.Groups; g++ {
+		base := uint64(100 * (g + 1))
+		var all []uint64
+		for d := 0; d < p.DupsPer; d++ {
+			n := base + uint64(d) + 1
+			out = append(out, blk{n, g, []uint64{n}}) // covered by the big block of its group
+			all = append(all, n)
+		}
+		all = append(all, base+50)
+		if p.Layout == "cross" {
+			// base+40 is covered by nothing in its own group, but by the big block of EVERY other group (so that
+			// the scenario is symmetric under every permutation of the groups)
+			for h := 0; h < p.Groups; h++ {
+				if h != g {
+					all = append(all, uint64(100*(h+1))+45)
+				}
+			}
+			out = append(out, blk{base + 40, g, []uint64{base + 45}})
+		}
+		out = append(out, blk{base + 60, g, all}) // covers every small block of the group
+	}
+	return out
+}
+
+func listing(p Params, blocks []blk) map[ulid.ULID]*metadata.Meta {
+	metas := map[ulid.ULID]*metadata.Meta{}
+	for _, b := range blocks {
+		metas[id(b.n)] = b.meta(p)
+	}
+	return metas
+}
+
+type result struct {
+	kept, dups []string
+	err        error
+}
+
+func observe(metas map[ulid.ULID]*metadata.Meta, f *block.DefaultDeduplicateFilter, err error) result {
+	r := result{err: err}
+	for k := range metas {
+		r.kept = append(r.kept, k.String())
+	}
+	for _, d := range f.DuplicateIDs() {
+		r.dups = append(r.dups, d.String())
+	}
+	sort.Strings(r.kept)
+	sort.Strings(r.dups)
+	return r
+}
+
+func newGauge() gv { return gv{prometheus.NewGauge(prometheus.GaugeOpts{Name: "x"})} }
+
+// expected: what a sequential run hides, by construction of the layout: exactly the blocks covered by the big block
+// of their own group (the scenarios with concurrency 1 explore the sequential run itself against this expectation).
+func expected(p Params, blocks []blk) (kept, dups []string) {
+	for _, b := range blocks {
+		if role := int(b.n % 100); role >= 1 && role <= p.DupsPer {
+			dups = append(dups, id(b.n).String())
+		} else {
+			kept = append(kept, id(b.n).String())
+		}
+	}
+	sort.Strings(kept)
+	sort.Strings(dups)
+	return kept, dups
+}
+
+// statement checks one observed result against the property statement itself.
+func statement(blocks []blk, r result) (string, string) {
+	byID := map[string]blk{}
+	for _, b := range blocks {
+		byID[id(b.n).String()] = b
+	}
+	hidden := map[string]bool{}
+	for k := range byID {
+		hidden[k] = true
+	}
+	for _, k := range r.kept {
+		if _, ok := byID[k]; !ok {
+			return "filter-invented-a-block", k
+		}
+		delete(hidden, k)
+	}
+	for _, d := range r.dups {
+		if _, ok := byID[d]; !ok {
+			return "duplicate-ids-name-unknown-block", d
+		}
+		hidden[d] = true
+	}
+	for h := range hidden {
+		ok := false
+		for k, b := range byID {
+			ok = ok || (!hidden[k] && b.group == byID[h].group && b.covers(byID[h]))
+		}
+		if !ok {
+			return "hidden-block-not-covered-by-kept-block-of-its-group", fmt.Sprintf("block %s (group %d, sources %v) is hidden", h, byID[h].group, byID[h].sources)
+		}
+	}
+	for _, b := range blocks {
+		for _, s := range b.sources {
+			ok := false
+			for k, kb := range byID {
+				ok = ok || (!hidden[k] && kb.group == b.group && kb.covers(blk{sources: []uint64{s}}))
+			}
+			if !ok {
+				return "kept-blocks-do-not-cover-all-sources", fmt.Sprintf("source %d of group %d is in no kept block", s, b.group)
+			}
+		}
+	}
+	return "", ""
+}
+
 func scenario(p Params) *vexplore.Scenario {
+	blocks := layout(p)
+	wantKept, wantDups := expected(p, blocks)
 	return &vexplore.Scenario{
 		Name:     p.name(),
 		MaxSteps: 20000,
 		New: func() (func(e *vsync.Exec), func(), func(e *vsync.Exec) (string, string, string)) {
-			metas := map[ulid.ULID]*metadata.Meta{}
-			wantDup := map[string]bool{}
-			wantKeep := map[string]bool{}
-			for g := 0; g < p.Groups; g++ {
-				base := uint64(100 * (g + 1))
-				var all []uint64
-				for d := 0; d < p.DupsPer; d++ {
-					n := base + uint64(d) + 1
-					metas[id(n)] = mk(n, g, n)
-					wantDup[id(n).String()] = true
-					all = append(all, n)
-				}
-				all = append(all, base+50)
-				metas[id(base+60)] = mk(base+60, g, all...) // covers every small block of the group
-				wantKeep[id(base+60).String()] = true
-			}
 			f := block.NewDeduplicateFilter(p.Concurrency)
-			var err error
-			var dupIDs []ulid.ULID
+			results := make([]result, 0, p.calls())
+			var warmFail string
+			call := func() {
+				metas := listing(p, blocks) // every sync lists the bucket again
+				g := newGauge()
+				err := f.Filter(context.Background(), metas, g, g)
+				results = append(results, observe(metas, f, err))
+			}
+			scheduled := p.calls()
+			if p.WarmDefault {
+				scheduled = 1
+				for i := 1; i < p.calls() && warmFail == ""; i++ {
+					w := vsync.Run(defaultSchedule{}, 20000, nil, call)
+					switch {
+					case len(w.Panics) > 0:
+						warmFail = "panic: " + strings.Join(w.Panics, "; ")
+					case w.Deadlock:
+						warmFail = "deadlock: " + w.DeadlockMsg
+					case w.Horizon || w.Stalled:
+						warmFail = "did not terminate: " + w.DeadlockMsg
+					}
+				}
+			}
 			body := func() {
-				g := gv{prometheus.NewGauge(prometheus.GaugeOpts{Name: "x"})}
-				err = f.Filter(context.Background(), metas, g, g)
-				dupIDs = f.DuplicateIDs()
+				for i := 0; i < scheduled; i++ {
+					call()
+				}
 			}
 			check := func(e *vsync.Exec) (string, string, string) {
-				var kept, dups []string
-				for k := range metas {
-					kept = append(kept, k.String())
+				var ks, ds []string
+				for _, r := range results {
+					ks = append(ks, fmt.Sprint(len(r.kept)))
+					ds = append(ds, fmt.Sprint(len(r.dups)))
 				}
-				for _, d := range dupIDs {
-					dups = append(dups, d.String())
-				}
-				sort.Strings(kept)
-				sort.Strings(dups)
-				outcome := fmt.Sprintf("%s kept=%d dups=%d steps=%d", e.Outcome(), len(kept), len(dups), e.Steps)
+				outcome := fmt.Sprintf("%s kept=%s dups=%s steps=%d", e.Outcome(), strings.Join(ks, "/"), strings.Join(ds, "/"), e.Steps)
 				switch {
+				case warmFail != "":
+					return "earlier-call-failed", "a Filter call before the explored one (default schedule): " + warmFail, outcome
 				case len(e.Panics) > 0:
 					return "panic", strings.Join(e.Panics, "; "), outcome
 				case e.Deadlock:
 					return "deadlock", e.DeadlockMsg, outcome
 				case e.Horizon:
 					return "step-horizon-exceeded", "", outcome
-				case err != nil:
-					return "filter-error", err.Error(), outcome
+				case len(results) != p.calls():
+					return "filter-did-not-return", fmt.Sprintf("%d of %d calls returned", len(results), p.calls()), outcome
 				}
-				okKept := len(kept) == len(wantKeep)
-				for _, k := range kept {
-					okKept = okKept && wantKeep[k]
-				}
-				okDup := len(dups) == len(wantDup)
-				for _, d := range dups {
-					okDup = okDup && wantDup[d]
-				}
-				if !okKept {
-					return "wrong-blocks-hidden", fmt.Sprintf("visible after Filter: %v", kept), outcome
-				}
-				if !okDup {
-					return "wrong-duplicate-ids", fmt.Sprintf("DuplicateIDs after Filter returned: %v, want the %d covered blocks", dups, len(wantDup)), outcome
+				for i, r := range results {
+					how := fmt.Sprintf("Filter call %d of %d on one instance, concurrency %d", i+1, p.calls(), p.Concurrency)
+					if r.err != nil {
+						return "filter-error", how + ": " + r.err.Error(), outcome
+					}
+					if sig, d := statement(blocks, r); sig != "" {
+						return sig, how + ": " + d + fmt.Sprintf("; visible %v, DuplicateIDs %v", r.kept, r.dups), outcome
+					}
+					if strings.Join(r.kept, ",") != strings.Join(wantKept, ",") {
+						return "wrong-blocks-hidden", fmt.Sprintf("%s: visible after Filter: %v, a sequential run leaves %v", how, r.kept, wantKept), outcome
+					}
+					if strings.Join(r.dups, ",") != strings.Join(wantDups, ",") {
+						return "wrong-duplicate-ids", fmt.Sprintf("%s: DuplicateIDs after Filter returned: %v, want the %d covered blocks %v", how, r.dups, len(wantDups), wantDups), outcome
+					}
 				}
 				return "", "", outcome
 			}
@@ -121,15 +294,25 @@ func scenario(p Params) *vexplore.Scenario {
 func TestCheck(t *testing.T) {
 	r := vlib.New(t, "C31")
 	defer r.Finish()
-	r.Rule("Filter on 2 symmetric compaction groups (1-2 covered blocks + 1 covering block each) with concurrency 1..3; every interleaving within the deviation bound (thorough: unbounded for the small scenarios); " +
-		"distinct_nontrivial = distinct (scenario, execution length) observations")
+	r.Rule("Filter on 2-3 isomorphic compaction groups (1-2 covered blocks + 1 covering block each; layout cross: + 1 kept block whose sources are contained in the covering block of every other group, groups differ by resolution only) " +
+		"with concurrency 1..3, as 1 call on a fresh filter or 2 consecutive calls on one reused filter instance; scheduling points: channel / WaitGroup / mutex operations and every source comparison of filterGroup; " +
+		"every interleaving within the deviation bound (thorough: larger bounds); distinct_nontrivial = distinct (scenario, execution length) observations")
+	r.Assume("expected result = what a sequential run hides, by construction of the layouts: exactly the blocks covered by the big block of their group (the concurrency-1 scenarios explore the sequential run itself against it)",
+		"in a warm_default scenario the calls before the last one run on the scheduler's default schedule; only the interleavings of the last call are enumerated there (both calls are enumerated in the scenarios without warm_default)",
+		"plain memory accesses between two scheduling points are executed atomically (scheduling points: synchronisation operations and the contains() comparisons)")
 	type sb struct {
 		p Params
 		b int
 	}
+	cross := func(conc, groups, dups, calls int, warm bool) Params {
+		return Params{Concurrency: conc, Groups: groups, DupsPer: dups, Layout: "cross", Calls: calls, WarmDefault: warm}
+	}
 	ps := []sb{
 		{Params{Concurrency: 1, Groups: 2, DupsPer: 1}, 2},
 		{Params{Concurrency: 2, Groups: 2, DupsPer: 1}, 1},
+		{cross(2, 2, 1, 2, true), 1},  // reused instance, 2 workers x 2 groups
+		{cross(1, 2, 1, 2, false), 1}, // reused instance, both calls enumerated, 1 worker
+		{cross(2, 3, 1, 0, false), 1}, // fresh instance, more groups than workers (a worker's second group runs on a used filter)
 	}
 	if r.Thorough() {
 		ps = []sb{
@@ -137,6 +320,13 @@ func TestCheck(t *testing.T) {
 			{Params{Concurrency: 2, Groups: 2, DupsPer: 1}, 2},
 			{Params{Concurrency: 3, Groups: 2, DupsPer: 1}, 2},
 			{Params{Concurrency: 2, Groups: 2, DupsPer: 2}, 2},
+			{cross(2, 2, 1, 2, true), 2},
+			{cross(1, 2, 1, 2, false), 2},
+			{cross(2, 3, 1, 0, false), 1},
+			{cross(2, 2, 2, 2, true), 1},
+			{cross(2, 3, 1, 2, true), 1},
+			{cross(3, 2, 1, 2, true), 1},
+			{cross(2, 2, 1, 3, true), 1},
 		}
 	}
 	var named []vexplore.Named
